@@ -6,8 +6,8 @@ FAMILY = "br"
 
 MANIFEST = {
  "level": 'other',
- "text": "see Props/C17.v header (filled in by the final revision of this file)",
- "note": vlib.NOTE_COMMON,
+ "text": "Proved about the Gallina models of ser_br.rs, read_cache_lookup.rs, object_cache.rs and de_br.rs: (format level, any emitter) bytes that are node by node either the structure or 0xfe + a path valid for the decoder's stack decode to the tree in the grammar, both decoders and the length probe, are canonical, and are not longer than the classic form when back-references are only used where they are not longer; (serializer level, for every hash function with an injective tree hash — explicit, satisfiable premise) whenever node_to_bytes_backrefs returns bytes they decode to the tree, are canonical, are no longer than the classic serialization (classic length < 2^32-5) and re-serialize to themselves. Not proved: that the serializer never fails (op-stack assert, u32 reference-count underflow, breadth-first fuel) — explored only. Run-to-run determinism is a property of the model by construction (no iteration over hashed containers) and is tested on the implementation. Model vs implementation byte for byte on DAG-shared trees; implementation search for round trip (both decoders), length, determinism, idempotence, canonical form, length probes.",
+ "note": vlib.NOTE_COMMON + " Level 'other': totality of the serializer is not proved and sha256's collision resistance appears as the premise 'tree hash injective'.",
  "technique": 'Coq proof (format-level emitter theorem, read-cache soundness under tree-hash injectivity) + byte-for-byte model/implementation run of the serializer on DAG-shared trees + implementation search (round trip, length, determinism, idempotence, canonical form)',
 }
 
@@ -36,7 +36,13 @@ def run(ctx):
     ctx.rule = ("DAG-shared trees: random shapes over a small atom pool with sub-tree reuse probability 0-0.5, towers that repeat one "
                 "sub-tree at varying depths, gen.gen_tree with sharing; atoms of 0-70 bytes incl. lengths at the 0x3f/0x40 prefix boundary. "
                 "non-trivial = distinct tree whose compressed form is shorter than its classic form (at least one back-reference)")
-    ctx.explanation = "filled in below"
+    ctx.explanation = ("Theorems (Props/C17.v): C17_emit_ok, C17_enc_canonical, C17_format_never_grows (format level, any emitter; also what C19 needs); "
+                       "C17_serializer_emits_valid_paths, C17_roundtrip, C17_never_grows, C17_canonical, C17_idempotent (serializer level, premise: tree hash injective, "
+                       "conclusion conditional on the serializer returning bytes); C17_premise_satisfiable. Unproved: totality of the serializer (C17_total in the header). "
+                       "Correspondence: node_to_bytes_backrefs model (extracted SHA-256) vs implementation byte for byte on small DAG-shared trees; "
+                       "property search 'rt' on the implementation: decode with both decoders = tree and consumes everything, |br| <= |classic|, second run in a differently "
+                       "populated allocator gives the same bytes, is_canonical_serialization, both length probes = length, re-serialization of the decoded tree = same bytes.")
+    ctx.assumptions.append("C17 serializer-level theorems assume the tree hash is injective (sha256 collision resistance); shown satisfiable by C17_premise_satisfiable")
     ctx.proofs()
     if not ctx.build():
         return
